@@ -12,6 +12,7 @@ EXPLANATION = (
     "watch handler reset_state is on every path from the assemble call to the handler's return (Ok and Err alike), and the "
     "reclaimed source is not used afterwards. R5: StaticSource has no Clone/Copy impl (type-checked fact; the documented "
     "guard against a double free)."
+    ' R2 accepts HashMap::clear passed by name as the reset callback.'
 )
 NOT_DECIDED = "nothing of substance; hidden state inside dependencies (miette/fxhash) is outside the analysed crates"
 
